@@ -31,8 +31,8 @@ def regen(ctx):
 
 def _run(ctx, strength):
     if None in (ctx.nb, ctx.shapes_py, ctx.cl, ctx.shapes_cl):
-        ctx.note("translators failed: implementation-side run skipped")
-        return None
+        ctx.note("a translator failed closed: differential search without a translated model")
+        return ctx.run_impl("c20_impl.py", {"fallback": True, "strength": strength}, timeout=2400, threads=4)
     payload = {"strength": strength, "numba": ctx.nb, "cl": ctx.cl, "shapes_py": ctx.shapes_py,
                "shapes_cl": ctx.shapes_cl}
     return ctx.run_impl("c20_impl.py", payload, timeout=2400, threads=4)
@@ -44,6 +44,8 @@ def correspond(ctx):
     res = ctx.impl = _run(ctx, strength)
     if res is None:
         return
+    if None in (ctx.nb, ctx.shapes_py, ctx.cl, ctx.shapes_cl):
+        ctx.impl_strength = "fallback"
     c = res["corr"]
     ctx.corr["evaluations"] = c["evaluations"]
     ctx.corr["distinct_nontrivial"] = c["nontrivial"]
@@ -62,18 +64,29 @@ def correspond(ctx):
 
 def search(ctx, strength):
     res = getattr(ctx, "impl", None)
-    if res is None or strength != getattr(ctx, "impl_strength", None):
+    if res is None or strength != getattr(ctx, "impl_strength", None) and getattr(ctx, "impl_strength", None) != "fallback":
         res = _run(ctx, strength)
     if res is None:
         # translators failed closed: fall back to the direct differential test, which needs the kernel lists only
         return
     ctx.search_info["evaluations"] = res["search"]["evaluations"]
     ctx.search_info["notes"].append({"worst_error_over_tolerance": res["search"]["worst"]})
+    for n in res.get("notes", []):
+        if n not in ctx.notes:
+            ctx.note(n)
     for f in res["failures"]:
         ctx.failure(f["signature"], f["what"], f["data"])
 
 
 def replay(ctx):
+    res = ctx.run_impl("c20_impl.py", {"replay": ctx.replay}, timeout=1200, threads=2)
+    if res is not None and not res.get("not_applicable"):
+        ctx.search_info["evaluations"] = res["search"]["evaluations"]
+        for n in res["notes"]:
+            ctx.note(n)
+        for f in res["failures"]:
+            ctx.failure(f["signature"], f["what"], f["data"])
+        return
     regen(ctx)
     search(ctx, "thorough")
 
